@@ -401,6 +401,31 @@ DeferProg(kinds, raises) ==
   IN <<VarS("lg", FuncE("", <<Param("k")>>, <<PV(1, Id("k"))>>)),
        VarS("f", FuncE("", <<>>, body)),
        PV(2, CallE(Id("try"), <<Id("f"), FuncE("", <<Param("e")>>, <<Ret(I(9))>>)>>)), ES(I(0))>>
+\* try with several fallbacks: each fallback receives the error raised by the attempt just before it (not the first one)
+Raises(c) == ES(CallE(Id("error"), <<Str1(c)>>))
+TryChain(n, lastRaises) ==
+  LET handler(j) == FuncE("", <<Param("e")>>, <<PV(j, CallE(Id("string"), <<Id("e")>>))>> \o
+                          (IF j < n \/ lastRaises THEN <<Raises(97 + j)>> ELSE <<Ret(I(100 + j))>>))
+      first == FuncE("", <<>>, <<P(0), Raises(97)>>)
+      args == <<first>> \o [j \in 1..n |-> handler(j)]
+  IN <<PV(9, CallE(Id("try"), <<FuncE("", <<>>, <<Ret(CallE(Id("try"), args))>>), FuncE("", <<Param("e")>>, <<Ret(CallE(Id("string"), <<Id("e")>>))>>)>>)), ES(I(0))>>
+TryChains(u) == {TryChain(n, r) : n \in 1..4, r \in BOOLEAN}
+\* a variable assigned, through a closure and directly, a value that is EQUAL to its current one but not the same:
+\* another numeric type, another container with equal contents - the binding holds the new value afterwards
+FloatE(n8, text) == [k |-> "float", n8 |-> n8, text |-> text]   \* the literal text with value n8/8
+EqAssignProg(kind, captured) ==
+  LET set(e) == IF captured THEN <<VarS("setx", FuncE("", <<>>, <<AssignS("x", "=", e)>>)), ES(CallE(Id("setx"), <<>>))>>
+                ELSE <<AssignS("x", "=", e)>>
+      body == CASE kind = "float" -> <<VarS("x", I(1))>> \o set(FloatE(8, "1.0")) \o
+                                     <<PV(1, ListE(<<CallE(Id("type"), <<Id("x")>>), Bin("/", Id("x"), I(2))>>))>>
+                [] kind = "int" -> <<VarS("x", FloatE(16, "2.0"))>> \o set(I(2)) \o
+                                   <<PV(1, ListE(<<CallE(Id("type"), <<Id("x")>>), Bin("/", Id("x"), I(4))>>))>>
+                [] kind = "list" -> <<VarS("x", ListE(<<I(1)>>)), VarS("y", ListE(<<I(1)>>))>> \o set(Id("y")) \o
+                                    <<MethodS("y", "append", AppendCps, <<I(2)>>), PV(1, Id("x"))>>
+                [] kind = "map" -> <<VarS("x", MapE(<<StrK(107)>>, <<I(1)>>)), VarS("y", MapE(<<StrK(107)>>, <<I(1)>>))>> \o set(Id("y")) \o
+                                   <<SetIdxS(Id("y"), StrK(113), "=", I(2)), PV(1, Id("x"))>>
+  IN <<VarS("run", FuncE("", <<>>, body \o <<Ret(I(0))>>)), ES(CallE(Id("run"), <<>>)), ES(I(0))>>
+EqAssigns(u) == {EqAssignProg(k, c) : k \in {"float", "int", "list", "map"}, c \in BOOLEAN}
 \* ... and the same function called TWICE: the deferred calls of the first activation are not those of the second
 DeferTwice(kinds) ==
   LET body == [j \in 1..Len(kinds) |-> DeferOf(kinds[j], 10 * j)] \o <<P(0), Ret(I(5))>>
@@ -413,7 +438,7 @@ ForNoInit(inFn) ==
       sts == <<VarS("x", I(0)), loop, PV(2, Id("x"))>>
   IN IF inFn THEN <<VarS("run", FuncE("", <<>>, sts \o <<Ret(Id("x"))>>)), PV(3, CallE(Id("run"), <<>>)), ES(I(0))>>
      ELSE sts \o <<ES(I(0))>>
-DeferProgs(u) == {DeferTwice(ks) : ks \in (DeferKinds \X DeferKinds)} \cup {ForNoInit(b) : b \in BOOLEAN} \cup
+DeferProgs(u) == {DeferTwice(ks) : ks \in (DeferKinds \X DeferKinds)} \cup {ForNoInit(b) : b \in BOOLEAN} \cup TryChains(0) \cup EqAssigns(0) \cup
                  {DeferProg(ks, r) : ks \in (DeferKinds \X DeferKinds) \cup (DeferKinds \X DeferKinds \X DeferKinds), r \in BOOLEAN}
 
 \* only well-scoped scenarios: the innermost function of a chain of depth d can see v_1 .. v_d
